@@ -1,0 +1,18 @@
+//go:build verif
+
+// Contracts for govc (comment-only file; see /verif/DESIGN.md section 3).
+package bip32
+
+// BIP-32 public child derivation CKDpub (C14):  I = HMAC-SHA512(key = chain code, data = serP(K) || ser32(i));
+// the tweak is parse256(I[:32]) and the child chain code is I[32:]; index and parent key enter the MAC in this order.
+// (mac_out(k, d) names I[:32]; mac_out(k, wcat(d, 1)) names I[32:].)
+//@ func DeriveScalar
+//@   requires public != nil
+//@   panics_iff[C14,C05] i >= 2147483648
+//@   modifies nothing
+//@   allocates
+//@   let data = wcat(wcat(wempty(), benc(iface(public))), be32(i))
+//@   ensures[C14] result2 != nil ==> (result0 == nil && result1 == nil)
+//@   ensures[C14] result2 == nil ==> (result0 != nil && len(result1) == 32 && bval(result1) == mac_out(mac_key(bval(chaining)), wcat(data, 1)))
+//@   ensures[C14] result2 == nil ==> scval(result0) == sc_of_bytes(mac_out(mac_key(bval(chaining)), data))
+//@   assert_at[C14] UnmarshalBinary "scalar.UnmarshalBinary(out[:32])": bval(arg1) == mac_out(mac_key(bval(chaining)), data)
